@@ -1523,9 +1523,13 @@ static int __mcount_entry(unsigned long *parent_loc, unsigned long child, struct
 		/* same as __builtin_frame_addr(2) but avoid warning */
 		frame_addr = parent_loc[-1];
 
-		/* basic sanity check */
+		/*
+		 * basic sanity check: without a frame pointer (-mfentry) only
+		 * the frames above the return address of this call are alive;
+		 * an unwound callee of the parent had the very same location.
+		 */
 		if (frame_addr < (unsigned long)parent_loc)
-			frame_addr = (unsigned long)(parent_loc - 1);
+			frame_addr = (unsigned long)parent_loc;
 
 		mcount_rstack_rehook_exception(mtdp, frame_addr);
 		mtdp->in_exception = false;
